@@ -98,9 +98,18 @@ def _run(P, rep, tier, prefix):
                         site_kwargs.append(kw)
 
     def thunk():
-        obj = AObj(R.cls)
+        # a reader as its constructor builds it, with every attribute that is stored outside __init__
+        # holding an arbitrary value of its kind (the helper runs after arbitrary earlier reads)
+        from sa.harness import mutated_self_attrs, attr_store_summary, havoc_value
+        from sa.interp import Frame
         st = AStream('input')
-        obj.attrs[R.stream] = st
+        I.frames = [Frame(ra)]
+        obj = I.instantiate(R.cls, [st], {}, None)
+        I.frames = []
+        for name_ in mutated_self_attrs(P, R.cls):
+            obj.attrs[name_] = havoc_value(obj.attrs.get(name_), name_, attr_store_summary(P, R.cls, name_))
+        if obj.attrs.get(R.stream) is not st:
+            raise AnalysisError('the reader constructor does not store its stream in self.%s' % R.stream)
         delim = Unk('c', kinds=['bytes'], taint=[], src=('param', params[1]))
         delim.facts.add('truthy')
         args = [obj, delim]
@@ -131,7 +140,7 @@ def _run(P, rep, tier, prefix):
         seeks = [e for e in path.events if e.kind == 'stream-seek' and e.data['stream'] is st]
         writes = [e for e in path.events if e.kind == 'stream-write' and e.data['stream'] is not st]
         others = [e for e in path.events if e.kind.startswith('stream-') and e.data.get('stream') is st and
-                  e.kind not in ('stream-read', 'stream-seek')]
+                  e.kind not in ('stream-read', 'stream-seek', 'stream-tell')]
         if others:
             msgs['other-op'] = (others[0], 'the helper performs %s on the input stream' % others[0].kind)
         # chunk values by read order
@@ -208,7 +217,30 @@ def _run(P, rep, tier, prefix):
         for fnd in finds:
             if lin_zero(lin_add(lin_add(K, {('val', id(fnd)): 1}, -1), {1: 1}, -1)) and -1 in [x for x in fnd.neq]:
                 k_ok = True
-        if whence != 1:
+        if whence == 0:
+            # absolute target: must be <position reported by tell()> + <bytes read since> - len(last) + K
+            good_abs = False
+            for ti, tev in enumerate(path.events):
+                if tev.kind != 'stream-tell' or tev.data.get('stream') is not st or 'result' not in tev.data:
+                    continue
+                since = {}
+                for cev in chunks:
+                    if path.events.index(cev) > ti:
+                        since = lin_add(since, {('len', id(_read_result(path, cev))): 1})
+                target = lin_add(lin_add(lin_add({('val', id(tev.data['result'])): 1}, since), L, -1), K)
+                if lin_zero(lin_add(off, target, -1)):
+                    good_abs = True
+            if not good_abs:
+                found_bad += 1
+                msgs['whence'] = (sk, 'the give-back seek is absolute (whence=0) and its target is not <a position reported by the '
+                                  'stream\'s tell()> + <bytes read since> - len(chunk) + kept: a position the reader keeps itself is '
+                                  'wrong for a stream that did not start at offset 0')
+            elif not k_ok:
+                found_bad += 1
+                msgs['kept-length'] = (sk, 'the kept length is not find(delimiter)+1 of a found delimiter')
+            else:
+                found_ok += 1
+        elif whence != 1:
             found_bad += 1
             msgs['whence'] = (sk, 'the give-back seek is not relative to the current position (whence=%r)' % whence)
         elif not lin_zero(total):
